@@ -130,6 +130,18 @@ def run_query(obj, table, pres, query, raises, expect):
     if set(got) != want:
       return 'Class_' + name, 'geos=%r indices=%r: %s expected %r got %r' % (
           geos, query['indices'], name, sorted(want, key=str), sorted(got, key=str))
+  # the eleven sets of one answer are independent objects: what the caller does to one of them (here: a foreign
+  # element added in place) leaves the others as the table encodes them
+  before = {name: set(getattr(a, name)) for name in SETS}
+  for name in SETS:
+    tgt = getattr(a, name)
+    if isinstance(tgt, set):
+      tgt.add('*edited*')
+      for other in SETS:
+        if other != name and set(getattr(a, other)) != before[other]:
+          return 'ClassesIndependent', 'geos=%r indices=%r: after adding an element to the returned %s, %s reads %r' % (
+              geos, query['indices'], name, other, sorted(getattr(a, other), key=str))
+      tgt.discard('*edited*')
   return None
 
 
